@@ -343,15 +343,35 @@ pub fn judge_queries(text: &str, g: &G, script: &str, b: &Built, cmds: &CmdOut, 
     Ok(j)
 }
 
+/// two within-word expressions with the same table shape whose alternatives are split over the || levels
+/// differently (the emitters may share one table set between same-shaped expressions)
+fn add_level_twins(g: &mut G) -> Vec<GenQuery> {
+    let (a, b, c, d) = (lit("va"), lit("vb"), lit("wc"), lit("wd"));
+    let w1 = E::Word(vec![lit("--lp="), E::Fb(vec![a.clone(), b.clone()]), E::Alt(vec![c.clone(), d.clone()])]);
+    let w2 = E::Word(vec![lit("--lq="), E::Alt(vec![a, b]), E::Fb(vec![c, d])]);
+    g.stmts.push(Stmt::Call { name: "cmd".into(), e: E::Seq(vec![lit("lvx"), E::Alt(vec![w1, w2]), E::Opt(Box::new(lit("tl")))]) });
+    ["--lp=", "--lp=va", "--lq=", "--lq=va", "--lq=vb", "--l"].iter().map(|c| GenQuery { words: vec!["lvx".into()], cur: c.to_string(), kind: "level_twins" }).collect()
+}
+
 fn case(bytes: &[u8]) -> Outcome {
     let n = bytes.len();
     let (ga, qb) = bytes.split_at(n * 2 / 3);
-    let (g, v) = gen_clean(&mut Src::new(ga), &profile());
+    let (mut g, v) = gen_clean(&mut Src::new(ga), &profile());
+    let mut extra = vec![];
+    if qb.first().map(|b| b % 3 == 0).unwrap_or(false) && !g.exprs().any(|e| e.has(&|x| matches!(x, E::Lit { text, .. } if text == "lvx"))) {
+        let all = add_level_twins(&mut g);
+        let k = (qb.get(1).copied().unwrap_or(0) as usize) % all.len();
+        extra = vec![all[k].clone(), all[(k + 1) % all.len()].clone(), all[(k + 3) % all.len()].clone()];
+    }
     let text = print_minimal(&g);
-    judge_grammar(&g, &v, &text, qb, 12)
+    judge_grammar_with(&g, &v, &text, qb, 10, extra)
 }
 
 fn judge_grammar(g: &G, v: &Vocab, text: &str, qbytes: &[u8], nq: usize) -> Outcome {
+    judge_grammar_with(g, v, text, qbytes, nq, vec![])
+}
+
+fn judge_grammar_with(g: &G, v: &Vocab, text: &str, qbytes: &[u8], nq: usize, extra: Vec<GenQuery>) -> Outcome {
     let Ok(b) = model::denote(g, "bash") else { return Outcome::Skip("model cannot elaborate".into()) };
     if interp::same_literal_two_labels(&b) {
         return Outcome::Skip("outside the stated domain: the same literal is expected at one point with two labels (C09's region)".into());
@@ -361,7 +381,8 @@ fn judge_grammar(g: &G, v: &Vocab, text: &str, qbytes: &[u8], nq: usize) -> Outc
         Ok(s) => s,
         Err(o) => return o,
     };
-    let queries = gen_queries(&mut Src::new(qbytes), &b, &cmds, nq);
+    let mut queries = gen_queries(&mut Src::new(qbytes), &b, &cmds, nq);
+    queries.extend(extra);
     let j = match judge_queries(text, g, &script, &b, &cmds, &queries, "C01") {
         Ok(j) => j,
         Err(o) => return o,
